@@ -178,6 +178,21 @@ Inductive reach (p : prog) : state -> Prop :=
 | r_init : reach p init
 | r_step : forall s t s', reach p s -> step p s t s' -> reach p s'.
 
+(* ---- every tag.  The state above is the state of ONE tag: its cache entry, the locks created for
+   it, and for each caller its progress in a call init_once(f, tag).  An FFI object with many tags
+   is the product of such states: the only data init_once touches are cache[tag] (a separate dict
+   key per tag; the translator driver refuses any other access to the dict, and ffi_obj.c uses
+   `tag` as the only key) and the lock found in that entry.  A step of the whole object is a step
+   of one tag's component; `t` then names a call on that tag (a thread that calls init_once for
+   several tags, also nested from inside an f, is a different caller in each component). *)
+Definition mstate := nat -> state.
+Definition minit : mstate := fun _ => init.
+Definition mupd (S : mstate) (tag : nat) (s : state) : mstate :=
+  fun tag' => if Nat.eqb tag' tag then s else S tag'.
+Inductive mreach (p : prog) : mstate -> Prop :=
+| mr_init : mreach p minit
+| mr_step : forall S tag t s', mreach p S -> step p (S tag) t s' -> mreach p (mupd S tag s').
+
 (* ---- observables used by the theorems *)
 Definition in_f (s : state) (t : nat) : Prop := exists n, pc (th s t) = InF n.
 Definition returned (s : state) (t : nat) (r : Z) : Prop := pc (th s t) = Ret r.
